@@ -138,9 +138,37 @@ def save_cmdlog(name, tier, seed, start):
               open(os.path.join(WORK, "cmdlog_%s_%s_%s.json" % (name, tier, seed)), "w"))
 
 
+# the environment is part of the input: VESP_SCHEMA_BASE_URL feeds the "$schema" member `revision` and `new` write
+PROJECT_ENV = {}
+SCHEMA_BASES = ["C:\\vespertide\\schemas", "\\\\share\\dir\\", "https://example.org/a \"quoted\" dir", "tab\there", "https://例え.jp/スキーマ",
+                "https://example.org/schemas/", "", "https://example.org/" + "s" * 300, "file:///tmp/{x}: [y]# z", "it's 'quoted'"]
+DEFAULT_SCHEMA_BASE = "https://raw.githubusercontent.com/dev-five-git/vespertide/refs/heads/main/schemas"
+
+
+def env_for(cwd):
+    extra = PROJECT_ENV.get(os.path.abspath(cwd))
+    return dict(RUN_ENV, **extra) if extra else RUN_ENV
+
+
+def expected_schema_url(cwd, leaf):
+    base = (PROJECT_ENV.get(os.path.abspath(cwd)) or {}).get("VESP_SCHEMA_BASE_URL", DEFAULT_SCHEMA_BASE)
+    return base.rstrip("/") + "/" + leaf
+
+
+def schema_member(text, name):
+    """the "$schema" member of a written file, or an exception text"""
+    try:
+        if name.endswith(".json"):
+            return json.loads(text).get("$schema")
+        import yaml
+        return yaml.safe_load(text).get("$schema")
+    except Exception as ex:
+        return "<unreadable: %s>" % str(ex)[:80]
+
+
 def run_cmd(args, cwd, timeout=60):
     try:
-        p = subprocess.run([BIN] + args, cwd=cwd, env=RUN_ENV, capture_output=True, timeout=timeout, stdin=subprocess.DEVNULL)
+        p = subprocess.run([BIN] + args, cwd=cwd, env=env_for(cwd), capture_output=True, timeout=timeout, stdin=subprocess.DEVNULL)
     except subprocess.TimeoutExpired as ex:
         err = (ex.stderr or b"").decode(errors="replace") if isinstance(ex.stderr, (bytes, bytearray)) else ""
         log_cmd(args, cwd, None, err, True)
@@ -153,7 +181,7 @@ def run_cmd(args, cwd, timeout=60):
 def run_pty(args, cwd, timeout=30):
     """run with a pseudo terminal; every time the program goes idle (a dialoguer prompt) press Enter = accept the default"""
     m, s = pty.openpty()
-    p = subprocess.Popen([BIN] + args, cwd=cwd, env=RUN_ENV, stdin=s, stdout=s, stderr=s, close_fds=True)
+    p = subprocess.Popen([BIN] + args, cwd=cwd, env=env_for(cwd), stdin=s, stdout=s, stderr=s, close_fds=True)
     os.close(s)
     out = b""
     t0 = time.time()
@@ -620,6 +648,8 @@ def observe(hcli, pdir, cfg, message, fill_mode, backend, tag):
             grev = "(OR_wrote %s %s %s %s)" % (gs(name), r0["g"], glist(gs(x) for x in changed), glist(gs(x) for x in added))
             wrote = {"file": name, "version": r0["version"], "n_actions": r0["n_actions"], "text": after[name].decode(errors="replace"),
                      "comment": r0.get("comment"), "comment_ok": r0.get("comment") == message}
+            wrote["schema"] = schema_member(wrote["text"], name)
+            wrote["schema_ok"] = wrote["schema"] == expected_schema_url(pdir, "migration.schema.json")
             o["rev"] = "wrote"
         else:
             o["rev"] = "wrote-unparsable"
@@ -708,8 +738,12 @@ def oracle_c13(row, post):
             fails.append(("revision_append_only", None, "new version %d, previous maximum %d" % (v, mx)))
         if mx == 4294967295:
             fails.append(("revision_append_only", None, "version counter saturated: new migration reuses version %d" % v))
+    for t in o.get("new_fails", []):
+        fails.append(("revision_output_loadable", None, t))
     if o["rev"] == "wrote-unparsable":
         fails.append(("revision_output_loadable", None, "revision wrote a file the loader's parser rejects"))
+    if o["rev"] == "wrote" and not o["wrote"].get("schema_ok", True):
+        fails.append(("revision_output_loadable", None, "the $schema member read back from %s is %r" % (o["wrote"]["file"], o["wrote"].get("schema"))))
     if o["rev"] == "wrote" and not o["wrote"].get("comment_ok", True):
         fails.append(("revision_output_loadable", None, "the comment read back from %s is %r, the message was %r" % (o["wrote"]["file"], o["wrote"].get("comment"), row["message"])))
     # the history the tool wrote must stay readable by the tool
@@ -779,6 +813,8 @@ def run_evolution(hcli, base, idx, evo, seed):
     pdir = os.path.join(base, "p%03d" % idx)
     shutil.rmtree(pdir, ignore_errors=True)
     write_project(pdir, cfg)
+    if rng.random() < 0.2:
+        PROJECT_ENV[os.path.abspath(pdir)] = {"VESP_SCHEMA_BASE_URL": rng.choice(SCHEMA_BASES)}
     rows = []
     backend = rng.choice(["postgres", "mysql", "sqlite"])
     for si, tables in enumerate(evo["steps"]):
@@ -1014,14 +1050,33 @@ def comment_streams():
     return out
 
 
+def schema_env_streams():
+    """VESP_SCHEMA_BASE_URL set to awkward values (backslashes, a double quote, a tab, non-ASCII, a trailing slash, the empty
+    string, 300 characters, YAML-significant characters), for the three migration formats; `new` is run as well"""
+    ID = {"name": "id", "type": "integer", "nullable": False, "primary_key": True}
+
+    def tbl(*cols):
+        return {"acct.json": {"name": "acct", "columns": [ID] + [{"name": c, "type": "text", "nullable": True} for c in cols]}}
+    fmts = ["json", "yaml", "yml"]
+    out = []
+    for bi, b in enumerate(SCHEMA_BASES):
+        for gi, gf in enumerate(fmts):
+            out.append(("env-%02d-%s" % (bi, gf), {"migrationFormat": gf, "modelFormat": fmts[(bi + gi) % 3], "_env": {"VESP_SCHEMA_BASE_URL": b}},
+                        [(tbl(), "first", "plain"), (tbl("a"), "second one", "plain two")], None))
+    return out
+
+
 def run_overwrite_stream(hcli, base, idx, spec, seed):
     name, over, steps, initial = spec
     cfg = {"modelsDir": "models", "migrationsDir": "migrations", "tableNamingCase": "snake", "columnNamingCase": "snake"}
     cfg.update(over)
+    env_extra = cfg.pop("_env", None)
     mext = cfg.get("modelFormat", "json")
     pdir = os.path.join(base, "w%03d" % idx)
     shutil.rmtree(pdir, ignore_errors=True)
     write_project(pdir, cfg)
+    if env_extra:
+        PROJECT_ENV[os.path.abspath(pdir)] = env_extra
     gd = os.path.join(pdir, cfg["migrationsDir"])
     for fname, plan in (initial or {}).items():
         os.makedirs(gd, exist_ok=True)
@@ -1038,11 +1093,26 @@ def run_overwrite_stream(hcli, base, idx, spec, seed):
         rows.append(b)
         if "skip" in b:
             break
+    if env_extra and rows and "skip" not in rows[-1]:
+        # `vespertide new` (new.rs:54-66): the model template must parse and carry base + "/model.schema.json"
+        for fmt in ("json", "yaml"):
+            rc, out, err = run_cmd(["new", "probe_%s" % fmt, "--format", fmt], pdir)
+            md = os.path.join(pdir, cfg["modelsDir"])
+            f = os.path.join(md, "probe_%s.vespertide.%s" % (fmt, fmt))
+            txt = open(f).read() if os.path.exists(f) else None
+            ok = rc == 0 and txt is not None and schema_member(txt, os.path.basename(f)) == expected_schema_url(pdir, "model.schema.json")
+            parsed = txt is not None and all(r.get("ok", True) for r in hcli_parse(hcli, [f], []) if r["kind"] == "model")
+            rows[-1]["obs"].setdefault("new_fails", [])
+            if not (ok and parsed):
+                rows[-1]["obs"]["new_fails"].append("`new --format %s` (rc=%d): %s" % (fmt, rc, "file does not parse" if not parsed else
+                                                    "$schema is %r" % schema_member(txt or "", os.path.basename(f))))
+            if os.path.exists(f):
+                os.remove(f)
     return rows
 
 
 def run_overwrite_streams(hcli, base, seed):
-    specs = overwrite_streams() + message_streams() + comment_streams()
+    specs = overwrite_streams() + message_streams() + comment_streams() + schema_env_streams()
     rows = []
     with ThreadPoolExecutor(max_workers=12) as ex:
         for r in ex.map(lambda ie: run_overwrite_stream(hcli, base, ie[0], ie[1], seed), list(enumerate(specs))):
@@ -1067,9 +1137,13 @@ def c12_part(tier, seed):
         o = r["obs"]
         if o["rev"] == "wrote-unparsable":
             bad.append((r, "revision wrote a file the parser rejects"))
+        for t in o.get("new_fails", []):
+            bad.append((r, t))
         if o["rev"] != "wrote":
             continue
         wrote += 1
+        if not o["wrote"].get("schema_ok", True):
+            bad.append((r, "the $schema member read back from %s is %r" % (o["wrote"]["file"], o["wrote"].get("schema"))))
         if not o["wrote"].get("comment_ok", True):
             bad.append((r, "the comment read back from %s is %r, the message was %r" % (o["wrote"]["file"], o["wrote"].get("comment"), r["message"])))
         post = rows[i + 1] if i + 1 < len(rows) and rows[i + 1]["tag"].rsplit(":", 1)[0] == r["tag"].rsplit(":", 1)[0] else None
@@ -1086,7 +1160,7 @@ def c12_part(tier, seed):
             bad.append((r, "after `revision` wrote %s, `diff` still lists %d change(s)" % (o["wrote"]["file"], len(po["diff"][1]))))
     import collections
     fm = collections.Counter("%s/%s" % (r["config"].get("migrationFormat"), r["config"].get("modelFormat")) for r in rows if r["obs"]["rev"] == "wrote")
-    details = {"streams": len(fill_streams()) + len(fkname_streams()) + len(overwrite_streams()) + len(message_streams()) + len(comment_streams()), "observations": len(rows), "revisions_written": wrote,
+    details = {"streams": len(fill_streams()) + len(fkname_streams()) + len(overwrite_streams()) + len(message_streams()) + len(comment_streams()) + len(schema_env_streams()), "observations": len(rows), "revisions_written": wrote,
                "written_by_migration_format/model_format": dict(fm), "failures": [(r["tag"], t) for r, t in bad][:10]}
     fi = None
     if bad:
